@@ -40,6 +40,8 @@ ASSUMPTIONS = ['one interpreter = one forked child of a process that imported th
 P = PP = None
 CORPUS = []     # dicts: name, family, value, kw, idfree
 REF = []        # per item: [text, fingerprint_ok]
+REF_LATE = {}   # late items: reference once the late by-name registration has happened
+LATE_DONE = [False]
 FRESH = {}      # item index -> text from a fresh interpreter
 HERE = os.path.dirname(os.path.abspath(__file__))
 
@@ -214,6 +216,36 @@ class Gauge:
     """its printer returns a contextual document whose evaluator raises at layout time"""
 
 
+class Widget:
+    """registered by qualified name; Panel.Widget below shares its __name__ but has no printer"""
+
+    def __init__(self, name=None):
+        self.name = name
+
+    def __repr__(self):
+        return '<top-level Widget %s>' % self.name
+
+
+class Panel:
+    class Widget:
+        def __repr__(self):
+            return '<Panel.Widget>'
+
+
+class LateBase:
+    """its by-name printer is registered by the 'reg' operation somewhere in the history"""
+
+    def __init__(self, n):
+        self.n = n
+
+    def __repr__(self):
+        return '<%s n=%d>' % (type(self).__name__, self.n)
+
+
+class LateLeaf(LateBase):
+    pass
+
+
 class Holder:
     """unregistered; its __repr__ calls pformat(self.target) - a print nested inside the print that is
     showing the Holder, of a container that is on the outer print's active path. The nested call is
@@ -270,8 +302,8 @@ def build_corpus():
     dd = collections.defaultdict(list, a=[1])
     c = []
 
-    def add(name, family, value, kw=None, idfree=True, nested=None):
-        c.append(dict(name=name, family=family, value=value, kw=kw or {}, idfree=idfree, nested=nested))
+    def add(name, family, value, kw=None, idfree=True, nested=None, late=False):
+        c.append(dict(name=name, family=family, value=value, kw=kw or {}, idfree=idfree, nested=nested, late=late))
 
     add('int', 'scalar', 1)
     add('bigint', 'scalar', 10 ** 30)
@@ -388,6 +420,10 @@ def build_corpus():
     # a print abandoned at layout time, followed by a print that allocates the same shapes again
     add('layout_raises', 'abort', ['early-%03d' % i for i in range(300)] + [Gauge()], dict(width=50), idfree=False)
     add('after_layout_raises', 'abort', ['later-%03d' % i for i in range(300)], dict(width=50))
+    add('widget', 'nameclash', Widget('w1'))
+    add('panel_widget', 'nameclash', [Panel.Widget(), Widget('w2')])
+    add('late_leaf', 'late', LateLeaf(1), late=True)
+    add('late_mixed', 'late', {'k': [LateLeaf(2), LateBase(3)]}, late=True)
     task = Task()
     add('task_owner', 'reentrant', task.owner, idfree=False)
     add('task', 'reentrant', {'t': task}, idfree=False)
@@ -526,6 +562,10 @@ def register_harness():
             raise RuntimeError('gauge cannot be laid out')
         return contextual(evaluator)
 
+    @register_pretty(Widget.__module__ + '.' + Widget.__qualname__)
+    def pwidget(v, ctx):
+        return pretty_call(ctx, type(v), name=v.name)
+
     @register_pretty(HTcOnce)
     def ptc_once(v, ctx, trailing_comment=None):
         if v.bad:
@@ -549,6 +589,12 @@ def setup(fresh=True):
             raise core.HarnessError('reference for %s failed: %s' % (CORPUS[i]['name'], r))
         refs.append(r)
     REF[:] = refs
+    for i, it in enumerate(CORPUS):
+        if it.get('late'):
+            kind, r = core.in_fork(lambda i=i: (late_register(), call(i))[1], 60)
+            if kind != 'ok':
+                raise core.HarnessError('late reference failed: %s' % (r,))
+            REF_LATE[i] = r
     if fresh:
         _fresh_refs()
 
@@ -608,6 +654,14 @@ def snap(v, seen=None, depth=0):
         return (t, id(v))
 
 
+def late_register():
+    """what a late install_extras() does: a by-name registration arriving after values were printed"""
+    if not LATE_DONE[0]:
+        LATE_DONE[0] = True
+        P.register_pretty(LateBase.__module__ + '.' + LateBase.__qualname__)(
+            lambda v, ctx: P.pretty_call(ctx, type(v), n=v.n))
+
+
 def call(i):
     it = CORPUS[i]
     before = snap(it['value'])
@@ -648,8 +702,10 @@ def generate(rng, idx, tier):
     for _ in range(rng.randrange(3, length + 1)):
         if rng.random() < p_cc:
             ops.append('cc')
+        if rng.random() < 0.03:
+            ops.append('reg')
         if ops and rng.random() < 0.15:
-            prev = [o for o in ops if o != 'cc']
+            prev = [o for o in ops if o not in ('cc', 'reg')]
             if prev:
                 ops.append(rng.choice(prev))    # repetition
                 continue
@@ -667,6 +723,10 @@ def execute(spec):
             PP.pretty_dispatch._clear_cache()
             counters['dispatch_cache_cleared'] = counters.get('dispatch_cache_cleared', 0) + 1
             continue
+        if op == 'reg':
+            late_register()
+            counters['late_registrations'] = counters.get('late_registrations', 0) + 1
+            continue
         t, same, nested_ok = call(op)
         counters['calls'] = counters.get('calls', 0) + 1
         if done:
@@ -677,7 +737,7 @@ def execute(spec):
         name = CORPUS[op]['name']
         if not same:
             res.update({'class': 'input_mutated'}, signature=name,
-                       detail=dict(item=name, position=k, history=[CORPUS[o]['name'] if o != 'cc' else o
+                       detail=dict(item=name, position=k, history=[CORPUS[o]['name'] if o not in ('cc', 'reg') else o
                                                                      for o in spec['ops'][:k + 1]]))
             return res
         if not nested_ok:
@@ -686,16 +746,17 @@ def execute(spec):
                                    'of the same container is in progress returned a different text than the same '
                                    'call made with no print in progress', outer_text=t[:400]))
             return res
-        if t != REF[op][0]:
+        ref_text = REF_LATE[op][0] if (LATE_DONE[0] and op in REF_LATE) else REF[op][0]
+        if t != ref_text:
             res.update({'class': 'history_dependent'}, signature=name,
-                       detail=dict(item=name, position=k, got=t[:500], first_call_reference=REF[op][0][:500],
-                                   history=[CORPUS[o]['name'] if o != 'cc' else o for o in spec['ops'][:k + 1]]))
+                       detail=dict(item=name, position=k, got=t[:500], first_call_reference=ref_text[:500],
+                                   history=[CORPUS[o]['name'] if o not in ('cc', 'reg') else o for o in spec['ops'][:k + 1]]))
             return res
-        if op in FRESH and t != FRESH[op]:
+        if op in FRESH and not (LATE_DONE[0] and op in REF_LATE) and t != FRESH[op]:
             res.update({'class': 'differs_from_fresh_interpreter'}, signature=name,
                        detail=dict(item=name, got=t[:500], fresh=FRESH[op][:500]))
             return res
-    res['sample'] = [CORPUS[o]['name'] if o != 'cc' else o for o in spec['ops'][:12]]
+    res['sample'] = [CORPUS[o]['name'] if o not in ('cc', 'reg') else o for o in spec['ops'][:12]]
     return res
 
 
@@ -708,7 +769,7 @@ def on_timeout(spec):
 
 
 def normalise(spec):
-    return spec if any(o != 'cc' for o in spec['ops']) else None
+    return spec if any(o not in ('cc', 'reg') for o in spec['ops']) else None
 
 
 def shrinkers(spec):
